@@ -1,3 +1,25 @@
+pub mod biff8;
+pub mod cfb;
+pub mod ods;
 pub mod xlsx;
 pub mod xml;
 pub mod zipw;
+
+use crate::model::MBook;
+use crate::prng::Rng;
+
+/// a complete .xls file: BIFF8 workbook stream inside a compound file (+ optional extra streams)
+pub fn xls_file(
+    book: &MBook,
+    bc: &biff8::BiffChoices,
+    extra: &biff8::BiffExtra,
+    cc: &cfb::CfbChoices,
+    more: &[cfb::Entry],
+    rng: &mut Rng,
+) -> (Vec<u8>, biff8::Encoded) {
+    let enc = biff8::encode(book, bc, extra, rng);
+    let mut entries = vec![cfb::Entry::stream("Workbook", enc.stream.clone())];
+    entries.extend_from_slice(more);
+    let built = cfb::build(&entries, cc, rng);
+    (built.bytes, enc)
+}
